@@ -3,7 +3,7 @@
    the statement the decimal correspondence stream (Corr.CDec) checks the code against; a RepetitionWaveform that
    accumulates its boundaries in binary64 (0.1 + 0.1 + 0.1 > float(3/10), seeded change C01-5) violates it. *)
 From Coq Require Import ZArith QArith Qround Qreduction List Bool Lia Lqa.
-Require Import QV.common.Util QV.C01.Model.
+Require Import QV.common.Util QV.C01.Model QV.C01.Proofs QV.C01.Proofs_sampling.
 Import ListNotations.
 Open Scope Q_scope.
 Arguments Qfloor : simpl never. Arguments inject_Z : simpl never.
@@ -47,4 +47,46 @@ Proof.
     rewrite G. destruct ((0 <=? _)%Z && _); [|reflexivity].
     f_equal. apply Qred_complete. ring. }
   rewrite E. rewrite (rep_restarts b n c k 0 Hb Hk); [reflexivity|lra|exact Hb].
+Qed.
+
+(* ---- the same for sequences: a member of a SequenceWaveform starts exactly at the sum of the durations before it ---- *)
+Lemma seq_sample_proper_t l : forall start c t t', t == t' -> seq_sample l start c t = seq_sample l start c t'.
+Proof.
+  induction l as [|x r IH]; intros start c t t' Ht; cbn [seq_sample]; auto.
+  rewrite (Qle_bool_compat start start t t'), (Qltb'_compat t t' (Qred (start + wdur x)) (Qred (start + wdur x)));
+    auto; try reflexivity.
+  destruct (Qle_bool start t' && Qltb' t' (Qred (start + wdur x))).
+  - apply wsample_proper. rewrite Ht. reflexivity.
+  - apply IH. exact Ht.
+Qed.
+
+Lemma seq_sample_restarts pre : forall x post c s start,
+  Forall (fun y => 0 <= wdur y) pre -> 0 <= s -> s < wdur x ->
+  seq_sample (pre ++ x :: post) start c (start + sdur pre + s) = wsample x c (Qred s).
+Proof.
+  induction pre as [|y pre IH]; intros x post c s start Hpre H0 H1.
+  - cbn [app seq_sample].
+    assert (A : Qle_bool start (start + sdur [] + s) = true).
+    { apply Qle_bool_iff. rewrite sdur_nil. lra. }
+    assert (B : Qltb' (start + sdur [] + s) (Qred (start + wdur x)) = true).
+    { apply Qltb'_true. rewrite Qred_correct, sdur_nil. lra. }
+    rewrite A, B. cbn [andb]. f_equal. apply Qred_complete. rewrite sdur_nil. ring.
+  - inversion Hpre as [|? ? Hy Hpre']; subst.
+    assert (Hs : 0 <= sdur pre).
+    { clear - Hpre'. induction Hpre' as [|z l Hz _ IHl]; [rewrite sdur_nil; lra|rewrite sdur_cons; lra]. }
+    cbn [app seq_sample].
+    assert (B : Qltb' (start + sdur (y :: pre) + s) (Qred (start + wdur y)) = false).
+    { apply Qltb'_false. rewrite Qred_correct, sdur_cons. lra. }
+    rewrite B, andb_false_r.
+    rewrite <- (IH x post c s (Qred (start + wdur y)) Hpre' H0 H1).
+    apply seq_sample_proper_t. rewrite Qred_correct, sdur_cons. ring.
+Qed.
+
+Theorem seq_restarts pre x post c s :
+  Forall (fun y => 0 <= wdur y) pre -> 0 <= s -> s < wdur x ->
+  wsample (WSeq (pre ++ x :: post)) c (sdur pre + s) = wsample x c (Qred s).
+Proof.
+  intros Hpre H0 H1. rewrite wsample_seq.
+  rewrite <- (seq_sample_restarts pre x post c s 0 Hpre H0 H1).
+  apply seq_sample_proper_t. ring.
 Qed.
